@@ -22,11 +22,12 @@ from harness.common import exc_name, jdump
 
 PID = "C02"
 TITLE = "Evaluation is lazy: demand-driven consumption and bounded buffering"
-LEAN_MODULES = ["LenaModel.Props.C02"]
-LEAN_SOURCES = ["LenaModel/Model/C02.lean", "LenaModel/Lemmas/C02.lean", "LenaModel/Lemmas/C02Neg.lean",
+LEAN_MODULES = ["LenaModel.Props.C02", "LenaModel.Props.C02Src"]
+LEAN_SOURCES = ["LenaModel/Model/C02.lean", "LenaModel/Model/C02Src.lean", "LenaModel/Lemmas/C02.lean",
+                "LenaModel/Lemmas/C02Neg.lean",
                 "LenaModel/Lemmas/C02Split.lean", "LenaModel/Lemmas/C02Spec.lean", "LenaModel/Lemmas/C02Sim.lean",
-                "LenaModel/Lemmas/C02Min.lean",
-                "LenaModel/Props/C02.lean"]
+                "LenaModel/Lemmas/C02Min.lean", "LenaModel/Lemmas/C02Src.lean",
+                "LenaModel/Props/C02.lean", "LenaModel/Props/C02Src.lean"]
 DRIVER = "drivers/C02.lean"
 THEOREMS = [
     # the property's main sentences
@@ -70,6 +71,13 @@ THEOREMS = [
     # Split.__init__: only a Cache in a sequence-type branch gives up a finite bufsize
     "Lena.C02.effBufsize_no_cache",
     "Lena.C02.effBufsize_cache",
+    # where the flow comes from: Chain(...) / a Split of Sources as the head of a Source, Sources inside a Split
+    "Lena.C02.sources_lazy",
+    "Lena.C02.sources_lazy_infinite",
+    "Lena.C02.chain_produces",
+    "Lena.C02.splice_produces",
+    "Lena.C02.source_on_demand",
+    "Lena.C02.sources_refine_list",
 ]
 # true by definition / model-internal glue / encoding lemmas: audited, not counted as obligations of the property
 AUX_THEOREMS = [
@@ -95,6 +103,18 @@ AUX_THEOREMS = [
     "Lena.C02.listSrc_produces",
     "Lena.C02.fnSrc_feeds",
     "Lena.C02.map_feeds",
+    "Lena.C02.sources_build_is_silent",   # `rfl` per element; the sentence is sources_lazy at k = 0
+    "Lena.C02.xstage_produces",
+    "Lena.C02.xcompose_pulls",
+    "Lena.C02.xseqFuelOK_exists",
+    "Lena.C02.chain_pipeSim",
+    "Lena.C02.splice_pipeSim",
+    "Lena.C02.xseq_pipeSim",
+    "Lena.C02.XStage.wfb_iff",
+    "Lena.C02.xseqFuelOKb_iff",
+    "Lena.C02.ofChain_single",
+    "Lena.C02.chainStamps_append",
+    "Lena.C02.spliceVals_fst",
 ]
 CASE_TIMEOUT = 20
 
@@ -204,7 +224,7 @@ def slice_args(st):
 _TMPFILES = []
 
 
-def build_el(st, uid):
+def build_el(st, uid, sst=None):
     import lena.core
     import lena.flow
     import lena.context
@@ -238,11 +258,17 @@ def build_el(st, uid):
     if t == "filter":
         return lena.flow.Filter(mk_selector(st["p"]))
     if t == "slice":
+        if st.get("alias"):
+            # the deprecated spelling ISlice(...) returns a Slice
+            import warnings
+            with warnings.catch_warnings():
+                warnings.simplefilter("ignore")
+                return lena.flow.ISlice(*slice_args(st))
         return lena.flow.Slice(*slice_args(st))
     if t == "count":
         return lena.flow.Count(st["name"], st["c0"])
     if t == "runif":
-        inner = [build_el(s, uid) for s in st["inner"]]
+        inner = [build_el(s, uid, sst) for s in st["inner"]]
         if st.get("seqarg"):
             # the other accepted form: a Selector object and one Sequence
             return lena.flow.RunIf(lena.flow.Selector(mk_selector(st["p"])), lena.core.Sequence(*inner))
@@ -251,7 +277,7 @@ def build_el(st, uid):
         brs = []
         for b in st["branches"]:
             if b["k"] == "seq":
-                els = tuple(build_el(s, uid) for s in b["stages"])
+                els = tuple(build_el(s, uid, sst) for s in b["stages"])
                 if b.get("explicit"):
                     brs.append(lena.core.Sequence(*els))
                 else:
@@ -262,9 +288,9 @@ def build_el(st, uid):
                     if s["t"] == "count":
                         els.append(lena.core.FillInto(lena.flow.Count(s["name"], s["c0"])))
                     else:
-                        els.append(build_el(s, uid))
+                        els.append(build_el(s, uid, sst))
                 els.append(BlockSum(b["stop"], b.get("pairs", False)))
-                els.extend(build_el(s, uid) for s in b["post"])
+                els.extend(build_el(s, uid, sst) for s in b["post"])
                 brs.append(lena.core.FillRequestSeq(*els, bufsize=1, reset=False, buffer_input=True)
                            if b.get("explicit") else tuple(els))
             elif b["k"] == "src":
@@ -272,6 +298,15 @@ def build_el(st, uid):
                 if b.get("pairs"):
                     vals = [(v, {}) for v in vals]
                 brs.append(lena.core.Source(lambda vals=vals: iter(vals)))
+            elif b["k"] == "isrc":
+                # a Source whose flow is an instrumented generator (finite or infinite): it advances the clock of the
+                # case, so that WHEN its values are produced is observable
+                mk = (lambda b=b: source(b["m"], sst, b.get("pairs", False), b["base"]))
+                tail = [mk_callable(b["tf"])] if b.get("tf") else []
+                import warnings
+                with warnings.catch_warnings():
+                    warnings.simplefilter("ignore")
+                    brs.append(lena.core.Source(mk() if b.get("form") == "iter" else mk, *tail))
             else:
                 els = []
                 for s in b["pre"]:
@@ -279,9 +314,9 @@ def build_el(st, uid):
                         # a bare Count would itself be taken as the fill/compute element
                         els.append(lena.core.FillInto(lena.flow.Count(s["name"], s["c0"])))
                     else:
-                        els.append(build_el(s, uid))
+                        els.append(build_el(s, uid, sst))
                 els.append(lena.flow.Count(b["name"], b["c0"]))
-                els.extend(build_el(s, uid) for s in b["post"])
+                els.extend(build_el(s, uid, sst) for s in b["post"])
                 brs.append(lena.core.FillComputeSeq(*els) if b.get("explicit") else tuple(els))
         return lena.core.Split(brs, bufsize=st["bufsize"], copy_buf=st["copy"])
     raise ValueError(t)
@@ -310,26 +345,97 @@ class Runaway(Exception):
     pass
 
 
+class Box(object):
+    """a re-iterable container given to Chain: it has a length, and iterating it runs an instrumented generator"""
+
+    def __init__(self, n, st, pairs, start):
+        self.args = (n, st, pairs, start)
+
+    def __len__(self):
+        return self.args[0]
+
+    def __iter__(self):
+        return source(*self.args)
+
+
+class TickVal(Val):
+    """the start value given to CountFrom: itertools.count computes `value + step` once per value it hands out, so
+    the addition is the pull event of that (otherwise unobservable) infinite Source"""
+    __slots__ = ("st",)
+
+    def __init__(self, d, st):
+        self.d = d
+        self.st = st
+
+    def __int__(self):
+        return self.d
+
+    def __add__(self, step):
+        st = self.st
+        st.clock += 1
+        if self.d >= LIMIT:
+            raise Runaway()
+        return TickVal(self.d + step, st)
+
+    def __deepcopy__(self, memo):
+        return Val(self.d)
+
+
+def head_parts(case):
+    """[(number of values or None, first index, kind)] of the iterables chained in the head of the pipeline"""
+    out, start = [], 0
+    for p in case["head"]["parts"]:
+        out.append((p["n"], start, p.get("kind", "gen")))
+        start += p["n"]
+    if case["head"].get("inf"):
+        out.append((None, start, "gen"))
+    return out
+
+
+def build_head(case, st):
+    """the first element of Source(first, *els) for the heads made of several instrumented iterables"""
+    import lena.core
+    import lena.flow
+    pairs = case.get("pairs", False)
+    if case["via"] == "countfrom":
+        return lena.flow.CountFrom(TickVal(0, st), 1)
+    parts = head_parts(case)
+    if case["via"] == "splitcall":
+        # a Split of Sources is itself a Source: Split.__call__ chains them
+        return lena.core.Split([lena.core.Source(lambda a=a: source(a[0], st, pairs, a[1])) for a in parts],
+                               bufsize=case["head"].get("bufsize", 1000))
+    its = []
+    for n, start, kind in parts:
+        its.append(Box(n, st, pairs, start) if kind == "box" and n is not None else source(n, st, pairs, start))
+    if case["head"].get("inf") and case["head"].get("after"):
+        # what follows an infinite iterable is never reached
+        its.append([Val(-1 - i) for i in range(case["head"]["after"])])
+    return lena.flow.Chain(*its)
+
+
 class SrcState(object):
     def __init__(self):
         self.clock = 0
         self.alive = 0
         self.alive_log = []
+        self.refs = []
 
     def _dead(self, _ref):
         self.alive -= 1
 
 
-def source(n, st, pairs):
-    """the instrumented input: values Val(0), Val(1), ... (n of them, or for ever)"""
-    refs = []
+def source(n, st, pairs, start=0):
+    """an instrumented input: values Val(start), Val(start + 1), ... (n of them, or for ever).  Every instrumented
+    generator of a case (the input, the iterables given to a Chain, the Sources inside a Split) advances the ONE
+    clock of the case: once per value it produces, once when it finds itself exhausted."""
+    refs = st.refs       # (kept with the case, not in this frame: a weak reference that is itself gone reports nothing)
     i = 0
     while n is None or i < n:
         st.clock += 1
         st.alive_log.append(st.alive)
         if n is None and i >= LIMIT:
             raise Runaway()
-        v = Val(i)
+        v = Val(start + i)
         refs.append(weakref.ref(v, st._dead))
         st.alive += 1
         if pairs:
@@ -367,10 +473,18 @@ def one_run(case, k, keep=None):
     Returns (built_clock, results, end, final_clock, clock_after_close, alive_log)."""
     import lena.core
     uid = itertools.count()
-    els = [build_el(s, uid) for s in case["stages"]]
     st = SrcState()
+    els = [build_el(s, uid, st) for s in case["stages"]]
     try:
-        if case.get("via") == "source":
+        if case.get("via") in ("chain", "splitcall", "countfrom"):
+            # Source(Chain(it1, it2, ...), *els)(), Source(Split([Source(it1), Source(it2), ...]), *els)(),
+            # Source(CountFrom(0), *els)()
+            import warnings
+            with warnings.catch_warnings():
+                warnings.simplefilter("ignore")
+                seq = lena.core.Source(build_head(case, st), *els)
+            flow = seq()
+        elif case.get("via") == "source":
             # Source(first, *els)() is Sequence(*els).run(first())
             seq = lena.core.Source(lambda: source(case["n"], st, case.get("pairs", False)), *els)
             flow = seq()
@@ -505,6 +619,8 @@ def _strip(st):
                 brs.append({"k": "seq", "stages": [_strip(s) for s in b["stages"]]})
             elif b["k"] == "src":
                 brs.append({"k": "src", "m": b["m"], "base": b["base"]})
+            elif b["k"] == "isrc":
+                brs.append({"k": "isrc", "m": b["m"], "base": b["base"], "tf": b.get("tf") or ["id"]})
             elif b["k"] == "fr":
                 brs.append({"k": "fr", "pre": [_strip(s) for s in b["pre"]], "stop": b["stop"],
                             "post": [_strip(s) for s in b["post"]]})
@@ -515,21 +631,31 @@ def _strip(st):
     return st
 
 
+def has_isrc(stages, infinite_only=False):
+    return any(st["t"] == "split" and any(b["k"] == "isrc" and (b["m"] is None or not infinite_only)
+                                          for b in st["branches"]) for st in stages)
+
+
 def model_requests(case):
     stages = [_strip(s) for s in case["stages"]]
     k = case["K"]
-    reqs = [{"op": "run", "stages": stages, "n": case["n"], "k": MAXRES if k is None else k, "fuel": FUEL}]
+    base = {"stages": stages, "n": case["n"]}
+    if case.get("via") in ("chain", "splitcall"):
+        # the input is a chain of instrumented iterables: `Pipe.ofHead`
+        base["head"] = {"parts": [p["n"] for p in case["head"]["parts"]], "inf": bool(case["head"].get("inf"))}
+    reqs = [dict(base, op="run", k=MAXRES if k is None else k, fuel=FUEL)]
     # the consumer stop points (at most three per case) and the second run of a re-used pipeline object
     for kk in case.get("ks", [])[:3]:
-        reqs.append({"op": "run", "stages": stages, "n": case["n"], "k": kk, "fuel": FUEL})
+        reqs.append(dict(base, op="run", k=kk, fuel=FUEL))
     if case.get("reuse") is not None:
-        reqs.append({"op": "run", "stages": stages, "n": case["reuse"], "k": MAXRES, "fuel": FUEL})
-    if case["n"] is not None:
-        reqs.append({"op": "spec", "stages": stages, "n": case["n"], "fuel": FUEL})
-        reqs.append({"op": "den", "stages": stages, "n": case["n"]})
+        reqs.append(dict(base, op="run", n=case["reuse"], k=MAXRES, fuel=FUEL))
+    if case["n"] is not None and not has_isrc(case["stages"], infinite_only=True):
+        reqs.append(dict(base, op="spec", fuel=FUEL))
+        reqs.append(dict(base, op="den"))
     else:
-        # pipeline_lazy_infinite: the specification on a prefix of the infinite input
-        reqs.append({"op": "spec", "stages": stages, "n": SPEC_PREFIX, "fuel": FUEL})
+        # pipeline_lazy_infinite / sources_lazy_infinite: the specification with every infinite flow (the input,
+        # the last iterable of a Chain, a Source inside a Split) cut after SPEC_PREFIX values
+        reqs.append(dict(base, op="spec", trunc=SPEC_PREFIX, fuel=FUEL))
     return reqs
 
 
@@ -565,11 +691,12 @@ def compare(case, res, replies):
         return "a generated stage does not satisfy Stage.wfb (the hypothesis of the theorems)"
     if m.get("cap") != _caps(case["stages"])[0]:
         return f"documented buffer sizes: Lean seqCap {m.get('cap')} vs harness {_caps(case['stages'])[0]}"
-    if case["n"] is None and len(replies) > 1 and "err" not in replies[1]:
+    infinite = case["n"] is None or has_isrc(case["stages"], infinite_only=True)
+    if infinite and len(replies) > 1 and "err" not in replies[1]:
         # the statement of pipeline_lazy_infinite, evaluated: what the consumer asked for is settled within the
         # prefix => the run over the infinite input is the specification on the prefix
         sp = replies[1]
-        k = case["K"]
+        k = MAXRES if case["K"] is None else case["K"]
         nd = 0 if k == 0 else (sp["r"][k - 1][2] if k <= len(sp["r"]) else sp["cf"])
         if nd <= SPEC_PREFIX and sp.get("fuelok"):
             want_end = "stopped" if k <= len(sp["r"]) else "exhausted"
@@ -587,7 +714,7 @@ def compare(case, res, replies):
         return f"trace (value, context, clock): impl {res['r']} vs model {m['r']}"
     if res["end"] != m["end"] or res["clock"] != m["clock"]:
         return f"end: impl {res['end']}@{res['clock']} vs model {m['end']}@{m['clock']}"
-    if case["n"] is not None and len(replies) > 2 and res["end"] == "exhausted":
+    if not infinite and len(replies) > 2 and res["end"] == "exhausted":
         sp, dn = replies[1], replies[2]
         if "err" in sp or "err" in dn:
             return f"model driver error: {sp} {dn}"
@@ -606,6 +733,10 @@ def compare(case, res, replies):
 # A stamped flow is (c0, vals, cf): the clock before the first pull, the values each with the clock at
 # which it may be handed over at the latest, and the clock at which the end may be reported at the latest.
 # Values are (d, ctx) with ctx a dict of counters.
+
+INF = 10 ** 9      # the stamp of what the reference computation cannot know: it lies beyond the prefix of an infinite
+                   # flow that the reference looks at (every stamp derived from it is >= INF)
+
 
 def need(sf, i):
     c0, vals, cf = sf
@@ -735,6 +866,18 @@ def ref_split(st, sf, state):
     active = [(b, _RefFc(b, state) if b["k"] in ("fc", "fr") else None) for b in brs]
     srcvals = lambda b: [(b["base"] + i, {}) for i in range(b["m"])]
     out = []
+    # pulls from the instrumented Sources among the branches so far: they advance the same clock as the input, so
+    # everything that happens after them is later by that much
+    shift = [0]
+
+    def isrc(b, stamp):
+        """a Source is iterated on demand: its value number i is handed over after i + 1 pulls from it, and its end is
+        seen with one more pull; nothing of it is produced before it is wanted"""
+        f = fn_on_int(b.get("tf") or ["id"])
+        m = REF_PREFIX if b["m"] is None else b["m"]
+        out.extend(((f(b["base"] + i), {}), stamp + shift[0] + i + 1) for i in range(m))
+        shift[0] += m + 1
+        return b["m"] is None      # an infinite Source: what comes after it never happens
     blocks = []
     if bufsize is None:
         if vals:
@@ -743,12 +886,16 @@ def ref_split(st, sf, state):
         for i in range(0, len(vals), bufsize):
             blk = vals[i:i + bufsize]
             blocks.append((blk, blk[-1][1] if len(blk) == bufsize else cf))
-    for blk, stamp in blocks:
+    for blk, stamp0 in blocks:
         nxt = []
         for b, fc in active:
+            stamp = stamp0 + shift[0]
             if b["k"] == "src":
                 # a Source ignores the flow: its complete flow comes with the first block, then it is dropped
                 out.extend((v, stamp) for v in srcvals(b))
+            elif b["k"] == "isrc":
+                if isrc(b, stamp0):
+                    return (c0, out, INF)
             elif fc is None:
                 out.extend((v, stamp) for v in ref_den(b["stages"], [v for v, _ in blk], state))
                 nxt.append((b, fc))
@@ -776,16 +923,20 @@ def ref_split(st, sf, state):
                     nxt.append((b, fc))
         active = nxt
     for b, fc in active:
+        end = cf + shift[0]
         if b["k"] == "src":
-            out.extend((v, cf) for v in srcvals(b))
+            out.extend((v, end) for v in srcvals(b))
+        elif b["k"] == "isrc":
+            if isrc(b, cf):
+                return (c0, out, INF)
         elif b["k"] == "fr":
             if not blocks:
-                out.extend((v, cf) for v in fc.request())
+                out.extend((v, end) for v in fc.request())
         elif fc is not None:
-            out.extend((v, cf) for v in fc.compute())
+            out.extend((v, end) for v in fc.compute())
         elif not blocks:
-            out.extend((v, cf) for v in ref_den(b["stages"], [], state))
-    return (c0, out, cf)
+            out.extend((v, end) for v in ref_den(b["stages"], [], state))
+    return (c0, out, cf + shift[0])
 
 
 def ref_stage(st, sf, state=None):
@@ -836,15 +987,38 @@ def ref_stage(st, sf, state=None):
     raise ValueError(t)
 
 
-def reference(case):
+def head_flow(case):
+    """the stamped flow of the input: value i of a single instrumented generator comes with pull i + 1 and its end is
+    seen with one more; in a chain of iterables every exhausted one has cost one pull more.  An infinite flow is cut
+    after REF_PREFIX values and its 'end' gets the stamp INF."""
+    if case.get("via") in ("chain", "splitcall"):
+        vals, clock, i = [], 0, 0
+        for p in case["head"]["parts"]:
+            for _ in range(p["n"]):
+                clock += 1
+                vals.append(((i, {}), clock))
+                i += 1
+            clock += 1
+        if case["head"].get("inf"):
+            for _ in range(REF_PREFIX):
+                clock += 1
+                vals.append(((i, {}), clock))
+                i += 1
+            clock = INF
+        return (0, vals, clock)
     n = case["n"]
-    m = REF_PREFIX if n is None else n
-    sf = (0, [((i, {}), i + 1) for i in range(m)], m + 1)
+    if n is None:
+        return (0, [((i, {}), i + 1) for i in range(REF_PREFIX)], INF)
+    return (0, [((i, {}), i + 1) for i in range(n)], n + 1)
+
+
+def reference(case):
+    sf = head_flow(case)
     state = {}
     # (a fresh copy: the counters of Count elements are keyed by descriptor object, and one descriptor may occur twice)
     for st in json.loads(json.dumps(case["stages"])):
         sf = ref_stage(st, sf, state)
-    return sf, m + 1
+    return sf, INF
 
 
 def _caps(stages):
@@ -956,6 +1130,8 @@ def oracle(case, res):
     cap, cnt = _caps(case["stages"])
     if cap is not None:
         bound = cap + min(cnt, 2) + 3      # frame locals: measured excess over the documented buffers is at most 4
+        # a Source inside a Split buffers nothing; the value it produced last stays bound to a loop variable
+        bound += sum(1 for st in case["stages"] if st["t"] == "split" for b in st["branches"] if b["k"] == "isrc")
         if res["max_alive"] > bound:
             return (f"{name}: {res['max_alive']} input values were alive at a pull; the elements document buffers of "
                     f"{cap} values in total (allowing {bound} with frame locals)")
@@ -987,6 +1163,9 @@ def describe(case):
                     bs.append("(" + ",".join(d(s) for s in b["stages"]) + ")")
                 elif b["k"] == "src":
                     bs.append(f"Source({b['m']} values)")
+                elif b["k"] == "isrc":
+                    bs.append("Source(<%s>%s)" % ("infinite generator" if b["m"] is None else "generator of %d values" % b["m"],
+                                                  ", callable" + str(b["tf"]) if b.get("tf") else ""))
                 elif b["k"] == "fr":
                     bs.append("(" + ",".join([d(s) for s in b["pre"]] + [f"BlockSum(stop={b['stop']})"] +
                                              [d(s) for s in b["post"]]) + ")")
@@ -996,6 +1175,14 @@ def describe(case):
             return f"Split([{','.join(bs)}],bufsize={st['bufsize']},copy_buf={st['copy']})"
         return str(st)
     src = "infinite input" if case["n"] is None else f"input of {case['n']} values"
+    if case.get("via") in ("chain", "splitcall"):
+        its = ["<%s of %d values>" % ("container" if p.get("kind") == "box" else "iterator", p["n"])
+               for p in case["head"]["parts"]] + (["<infinite iterator>"] if case["head"].get("inf") else [])
+        first = ("Chain(%s)" % ", ".join(its) if case["via"] == "chain"
+                 else "Split([%s])" % ", ".join("Source(%s)" % x for x in its))
+        return f"Source({', '.join([first] + [d(s) for s in case['stages']])})()"
+    if case.get("via") == "countfrom":
+        return f"Source({', '.join(['CountFrom(0)'] + [d(s) for s in case['stages']])})()"
     if case.get("via") == "source":
         return f"Source({', '.join(['<input>'] + [d(s) for s in case['stages']])})() with an {src}"
     if case.get("via") == "source_iterable":
@@ -1043,13 +1230,14 @@ def g_slice(rng, nonneg=False, hi=7):
     form = rng.choice([1, 2, 3, 3])
     a, b = idx(), idx()
     s = rng.choice([None, 1, 1, 2, 3])
+    alias = rng.random() < 0.06          # spelled ISlice(...)
     if form == 1:
         if b is None:
             b = rng.randint(0, hi)
-        return {"t": "slice", "start": None, "stop": b, "step": None, "form": 1}
+        return {"t": "slice", "start": None, "stop": b, "step": None, "form": 1, "alias": alias}
     if form == 2:
-        return {"t": "slice", "start": a, "stop": b, "step": None, "form": 2}
-    return {"t": "slice", "start": a, "stop": b, "step": s, "form": 3}
+        return {"t": "slice", "start": a, "stop": b, "step": None, "form": 2, "alias": alias}
+    return {"t": "slice", "start": a, "stop": b, "step": s, "form": 3, "alias": alias}
 
 
 def g_count(rng, names):
@@ -1119,8 +1307,13 @@ def g_split(rng, pairs, names, infinite=False, nested=True):
                               cache if rng.random() < 0.6 else {"t": "runif", "p": ["all"], "seqarg": False,
                                                                 "inner": [cache]})
             brs.append({"k": "seq", "stages": stages, "bare": rng.random() < 0.3, "explicit": rng.random() < 0.2})
-        elif r0 < 0.58:
+        elif r0 < 0.54:
             brs.append({"k": "src", "m": rng.randint(0, 3), "base": 100 * (1 + next(names)), "pairs": pairs})
+        elif r0 < 0.62:
+            # a Source with an instrumented flow of its own, finite or infinite
+            brs.append({"k": "isrc", "m": rng.choice([0, 1, 2, 3, 5, None, None]), "base": 100 * (1 + next(names)),
+                        "pairs": pairs, "form": rng.choice(["call", "call", "iter"]),
+                        "tf": rng.choice(FNS) if rng.random() < 0.3 else None})
         elif r0 < 0.74:
             pre = []
             for _ in range(rng.randint(0, 2)):
@@ -1177,8 +1370,19 @@ def g_stage(rng, pairs, names, infinite):
     return st
 
 
-def mk_case(stages, n, pairs=False, K=None, ks=None, via="sequence"):
-    return {"stages": stages, "n": n, "pairs": pairs, "K": K, "ks": ks or [], "via": via}
+def mk_case(stages, n, pairs=False, K=None, ks=None, via="sequence", head=None):
+    case = {"stages": stages, "n": n, "pairs": pairs, "K": K, "ks": ks or [], "via": via}
+    if head is not None:
+        case["head"] = head
+        case["n"] = None if head.get("inf") else sum(p["n"] for p in head["parts"])
+    return case
+
+
+def g_head(rng, infinite):
+    """the iterables chained in the head of a pipeline (Chain(...) or a Split of Sources)"""
+    parts = [{"n": rng.choice([0, 1, 2, 3, 5, 8]), "kind": rng.choice(["gen", "gen", "box"])}
+             for _ in range(rng.choice([0, 1, 2, 2, 3] if not infinite else [0, 0, 1, 2]))]
+    return {"parts": parts, "inf": infinite, "after": rng.choice([0, 2]) if infinite else 0}
 
 
 def random_case(rng, tier):
@@ -1193,24 +1397,35 @@ def random_case(rng, tier):
             if st["t"] == "split":
                 st["copy"] = True
     r = rng.random()
-    via = "source" if r < 0.17 else ("source_iter" if r < 0.26 else ("source_iterable" if r < 0.32 else "sequence"))
+    via = ("source" if r < 0.15 else "source_iter" if r < 0.23 else "source_iterable" if r < 0.28 else
+           "chain" if r < 0.38 else "splitcall" if r < 0.42 else "countfrom" if r < 0.47 else "sequence")
+    if via == "countfrom" and (pairs or not infinite):
+        via = "chain"                     # CountFrom yields bare numbers, for ever
+    head = g_head(rng, infinite) if via in ("chain", "splitcall") else None
+    if via == "splitcall" and not head["parts"] and not infinite:
+        via = "chain"                     # Split([]) is an empty Sequence, not a Source
     if infinite:
-        return mk_case(stages, None, pairs, K=rng.randint(0, 9), ks=[rng.randint(0, 6)], via=via)
+        return mk_case(stages, None, pairs, K=rng.randint(0, 9), ks=[rng.randint(0, 6)], via=via, head=head)
     n = rng.choice([0, 1, 2, 3, 4, 5, 6, 7, 8, 10, 12, 25 if tier == "quick" else 40])
     if any(st["t"] == "split" and (st["bufsize"] or 0) in (8, 16) for st in stages):
         n = rng.choice([5, 6]) * max(st["bufsize"] for st in stages if st["t"] == "split" and st["bufsize"] in (8, 16)) \
             + rng.randint(0, 3)           # several blocks: a retained extra block exceeds the slack of the bound
-    ks = sorted(set([0, rng.randint(0, n + 1), rng.randint(0, n + 1)])) if tier == "quick" else list(range(0, n + 2))
-    case = mk_case(stages, n, pairs, K=None, ks=ks, via=via)
+        if head is not None:
+            head["parts"].append({"n": n, "kind": "gen"})
+    if head is not None:
+        n = sum(p["n"] for p in head["parts"])
+    nk = n + len(head["parts"]) if head is not None else n + 1
+    ks = sorted(set([0, rng.randint(0, nk), rng.randint(0, nk)])) if tier == "quick" else list(range(0, nk + 1))
+    case = mk_case(stages, n, pairs, K=None, ks=ks, via=via, head=head)
     txt = json.dumps(stages)
     if via == "sequence":
         if len(stages) >= 2 and rng.random() < 0.2:
             i = rng.randint(0, len(stages) - 1)
             case["group"] = [i, rng.randint(i + 1, len(stages))]
         if '"count"' not in txt and '"fc"' not in txt and '"fr"' not in txt and '"cache"' not in txt \
-                and rng.random() < 0.5:
+                and '"isrc"' not in txt and rng.random() < 0.5:
             case["reuse"] = rng.randint(0, 8)     # stateless elements: a second run is a fresh run
-    if _exact(stages) and n <= 12:
+    if _exact(stages) and n <= 12 and head is None:
         case["probe"] = True
     return case
 
@@ -1256,6 +1471,9 @@ PALETTE = [
     {"t": "split", "bufsize": 2, "copy": True, "branches": [dict(_FR)]},
     {"t": "split", "bufsize": 3, "copy": True, "branches": [
         {"k": "fc", "pre": [{"t": "slice", "start": None, "stop": 2, "step": None, "form": 1}], "name": "count", "c0": 0, "post": []},
+        {"k": "seq", "stages": [{"t": "map", "f": ["mul", 2], "impl": "callable"}]}]},
+    {"t": "split", "bufsize": 2, "copy": True, "branches": [
+        {"k": "isrc", "m": 2, "base": 500, "form": "call", "tf": None},
         {"k": "seq", "stages": [{"t": "map", "f": ["mul", 2], "impl": "callable"}]}]},
 ]
 
@@ -1313,10 +1531,76 @@ def fixed_cases(tier):
     return cases
 
 
+def _sl(stop, start=None, step=None):
+    if start is None and step is None:
+        return {"t": "slice", "start": None, "stop": stop, "step": None, "form": 1}
+    return {"t": "slice", "start": start, "stop": stop, "step": step, "form": 3 if step is not None else 2}
+
+
+TAILS = [
+    [],
+    [_sl(3)],
+    [{"t": "map", "f": ["add", 1], "impl": "callable"}, _sl(2)],
+    [{"t": "filter", "p": ["mod", 2, 0]}, _sl(2)],
+    [{"t": "count", "name": "count", "c0": 0}],
+    [_sl(-1), _sl(2)],
+    [_sl(4, 1, 2)],
+]
+
+
+def source_cases(tier):
+    """where the flow comes from: Chain(...), a Split of Sources, CountFrom as the head of a Source; Sources with an
+    instrumented flow among the branches of a Split.  Small scopes, enumerated."""
+    cases = []
+    shapes = [[], [0], [2], [0, 2], [2, 0], [1, 2], [2, 3, 1]] if tier == "quick" else \
+        [[], [0], [1], [2], [0, 0], [0, 2], [2, 0], [1, 2], [3, 1], [2, 3, 1], [1, 0, 2], [0, 0, 1]]
+    for shape in shapes:
+        for inf in (False, True):
+            for via in ("chain", "splitcall"):
+                if via == "splitcall" and not shape and not inf:
+                    continue              # Split([]) is an empty Sequence, not a Source
+                for j, tail in enumerate(TAILS):
+                    kinds = ["box" if (i + j) % 3 == 2 else "gen" for i in range(len(shape))]
+                    head = {"parts": [{"n": n, "kind": k} for n, k in zip(shape, kinds)], "inf": inf,
+                            "after": 2 if inf and j % 2 else 0}
+                    if inf:
+                        cases.append(mk_case(tail, None, K=6, ks=[0, 2], via=via, head=head))
+                    else:
+                        tot = sum(shape)
+                        cases.append(mk_case(tail, None, ks=[0, 1, tot] if tier == "quick" else list(range(tot + 3)),
+                                             via=via, head=head))
+    for tail in TAILS[1:] + [[s1] for s1 in PALETTE]:
+        cases.append(mk_case(tail, None, K=5, ks=[0, 2], via="countfrom"))
+    twice = {"k": "seq", "stages": [{"t": "map", "f": ["mul", 2], "impl": "callable"}]}
+    fc = {"k": "fc", "pre": [_sl(2)], "name": "count", "c0": 0, "post": []}
+
+    def isrc(m, base=500, form="call", tf=None):
+        return {"k": "isrc", "m": m, "base": base, "form": form, "tf": tf}
+    ms = [0, 1, 3, None]
+    for m in ms:
+        for j, brs in enumerate(([isrc(m)], [isrc(m), twice], [twice, isrc(m)], [isrc(m, form="iter"), isrc(2, 700)],
+                                 [isrc(2, 700), isrc(m, tf=["add", 1])], [fc, isrc(m), twice], [dict(_FR), isrc(m)])):
+            for bufsize in (1, 2, None) if tier == "quick" else (1, 2, 3, None):
+                sp = {"t": "split", "bufsize": bufsize, "copy": True, "branches": brs}
+                for tail in ([], [_sl(2)], [_sl(5)]):
+                    for n in (0, 3) if tier == "quick" else (0, 1, 2, 3, 5):
+                        cases.append(mk_case([sp] + tail, n, K=None if m is not None else 7, ks=[0, 1, 4]))
+                    if bufsize is not None:
+                        cases.append(mk_case([sp] + tail, None, K=7, ks=[1, 3], via="source" if j % 2 else "sequence"))
+    # the shapes of the adversary round: Slice(n) after a Split with an infinite Source; after Source(Chain(infinite, ..))
+    sp = {"t": "split", "bufsize": 2, "copy": True,
+          "branches": [isrc(None, 1000), {"k": "seq", "stages": [{"t": "map", "f": ["id"], "impl": "callable"}], "bare": True}]}
+    cases.append(mk_case([sp, _sl(3)], 10, ks=[0, 1, 3, 4]))
+    cases.append(mk_case([{"t": "map", "f": ["add", 1], "impl": "callable"}, _sl(3)], None, K=5, ks=[0, 1, 3], via="chain",
+                         head={"parts": [], "inf": True, "after": 2}))
+    return cases
+
+
 def gen_cases(ctx):
     rng = ctx.rng
     tier = ctx.tier
     yield from fixed_cases(tier)
+    yield from source_cases(tier)
     # every Slice with start, stop in {None, -3..3} and step in {None, 1, 2}, alone, over flows of 0..6 values
     idx = [None, -3, -2, -1, 0, 1, 2, 3]
     lens = [0, 1, 2, 3, 4, 6] if tier == "quick" else list(range(0, 9))
@@ -1336,7 +1620,7 @@ def gen_cases(ctx):
             for n in ((0, 1, 3, 7) if tier == "quick" else (0, 1, 2, 3, 5, 7, 9)):
                 yield mk_case([s1, s2], n, ks=[0, 1, 2] if tier == "quick" else list(range(n + 2)))
             yield mk_case([s1, s2], None, K=4, ks=[0, 2])
-    nrand = 4000 if tier == "quick" else 80000
+    nrand = 6000 if tier == "quick" else 80000
     for _ in range(nrand):
         yield random_case(rng, tier)
 
@@ -1356,7 +1640,9 @@ def classify(case, res):
         return ["timeout"]
     labels = ["len=%d" % len(case["stages"]), "input=" + ("infinite" if case["n"] is None else "finite"),
               "end=" + res.get("end", "?"), "via=" + case.get("via", "sequence")]
-    if case["n"] is not None and res.get("end") == "exhausted":
+    if case.get("head"):
+        labels.append("head:%d iterables%s" % (len(case["head"]["parts"]), "+infinite" if case["head"].get("inf") else ""))
+    if case["n"] is not None and res.get("end") == "exhausted" and not has_isrc(case["stages"], infinite_only=True):
         # sanity of the oracle's reference computation: on this tree it predicts the recorded trace exactly
         (c0, rv, rcf), _ = reference(case)
         exact = [[v[0], v[1], c] for v, c in rv] == res["r"] and rcf == res["clock"]
@@ -1376,7 +1662,8 @@ def classify(case, res):
             if any(x.get("t") == "split" for b in st["branches"] for x in b.get("stages", [])):
                 labels.append("split:nested")
             for b in st["branches"]:
-                labels.append("branch:" + b["k"] + (":explicit" if b.get("explicit") else ""))
+                labels.append("branch:" + b["k"] + (":explicit" if b.get("explicit") else "") +
+                              (":infinite" if b["k"] == "isrc" and b["m"] is None else ""))
         else:
             labels.append("el:" + t)
     return sorted(set(labels))
@@ -1391,7 +1678,15 @@ def shrink(case):
     stages = case["stages"]
     for i in range(len(stages)):
         yield dict(case, stages=stages[:i] + stages[i + 1:])
-    if n is not None and n > 0:
+    if case.get("head"):
+        hd = case["head"]
+        for i, part in enumerate(hd["parts"]):
+            h2 = dict(hd, parts=hd["parts"][:i] + hd["parts"][i + 1:])
+            yield dict(case, head=h2, n=None if hd.get("inf") else sum(q["n"] for q in h2["parts"]))
+            if part["n"] > 0:
+                h2 = dict(hd, parts=hd["parts"][:i] + [dict(part, n=part["n"] - 1)] + hd["parts"][i + 1:])
+                yield dict(case, head=h2, n=None if hd.get("inf") else sum(q["n"] for q in h2["parts"]))
+    elif n is not None and n > 0:
         yield dict(case, n=n - 1, ks=[k for k in case["ks"] if k <= n])
         if n > 4:
             yield dict(case, n=n // 2, ks=[k for k in case["ks"] if k <= n // 2 + 1])
@@ -1416,13 +1711,23 @@ RULE = ("quick and thorough: fixed cases (documented examples; negative Slice ov
         "elements over finite and infinite inputs, and seeded random pipelines (0..4 elements: callables, Variable, "
         "Print, Context, UpdateContext, MakeFilename, Filter, Slice, Count, RunIf (also with Count inside, also given a "
         "Selector and a Sequence), Split with sequence, fill/compute (tuple or explicit FillComputeSeq, FillInto(Count) "
-        "before the fill/compute element) and Source branches, a nested Split (bufsize None/1/2/1000) or a Cache inside a sequence-type branch, bufsize 1..5, 1000, None; 4000 quick / 80000 thorough; 30% of them run as Source(first, *elements)() with a callable or a one-pass iterator object as first element), each with a long run and runs for consumer stop points "
-        "(quick: 3 per case, thorough: every k = 0..n+1). Non-trivial: at least one element and one result.")
+        "before the fill/compute element) and Source branches, a nested Split (bufsize None/1/2/1000) or a Cache inside a sequence-type branch, bufsize 1..5, 1000, None; 6000 quick / 80000 thorough; 30% of them run as Source(first, *elements)() with a callable or a one-pass iterator object as first element), each with a long run and runs for consumer stop points "
+        "(quick: 3 per case, thorough: every k = 0..n+1). Where the flow comes from (adversary round): enumerated small scopes "
+        "of Source(Chain(it1, ..), *els)() and Source(Split([Source(it1), ..]), *els)() with 0..3 instrumented iterables "
+        "(one-pass generators, containers with a length; optionally an infinite last one, optionally something after it), "
+        "Source(CountFrom(0), *els)() with an instrumented start value, and Split with 1..2 Sources that have instrumented "
+        "flows of their own (0, 1, 3 values or infinite; callable or iterator object; with or without a callable after it) "
+        "at every position among sequence / fill-compute / fill-request branches, bufsize 1, 2, None, followed by nothing "
+        "or a Slice, over empty, finite and infinite inputs; the same heads (19% of the cases) and Source branches (8% of "
+        "the branches) in the random pipelines; 6% of the Slices spelled ISlice. All instrumented generators of a case "
+        "advance one clock. Non-trivial: at least one element and one result.")
 TRUSTED = [
     "Lean 4.33.0 kernel; axioms limited to propext, Classical.choice, Quot.sound (audited by #print axioms on every run)",
     "hand transcription of the run methods (Run._call_run, Filter.run, RunIf.run, Slice.run/itertools.islice, "
     "Slice._run_negative_islice, Count.run, Split.run and the bufsize rule of Split.__init__, Sequence.run, "
-    "Source.__call__) into LenaModel/Model/C02.lean as generators with explicit state, validated by this "
+    "Source.__call__; Chain.__call__ = Split.__call__, CountFrom.__call__, and the loop `for val in seq(): yield val` "
+    "of Split.run over a Source, in LenaModel/Model/C02Src.lean) into LenaModel/Model/C02.lean as generators with "
+    "explicit state, validated by this "
     "correspondence check (event traces of the real code equal the model's, for the long run, for up to three "
     "consumer stop points per case and for a second run of the same pipeline object)",
     "the list semantics of inner sequences (Model/C02.lean: iRun/iRunEl, total) and of the harness's branch elements "
@@ -1460,13 +1765,28 @@ ASSUMPTIONS = [
     "fill/request branches use the harness's BlockSum element (fill adds, request yields and clears); the FillRequest "
     "adapter itself is C16's subject; RunIf as a fill-into element (FillInto._run_fill_into) is not generated",
     "re-use: a second run of one pipeline object is generated for pipelines of stateless elements only (no Count, no "
-    "fill/compute or fill/request branch, no Cache)",
+    "fill/compute or fill/request branch, no Cache, no Source with an instrumented flow)",
+    "a Split with instrumented Sources among its sequences is modelled as splitG (Model/C02.lean) with a marker value "
+    "in place of each such Source, followed by spliceG (Model/C02Src.lean), which iterates the Source where the marker "
+    "arrives; such a Source has no elements after its first one except at most one plain callable; inside a nested "
+    "Split no Source is generated",
+    "the iterables given to Chain (and the Sources of a Split used as a Source) are instrumented generators or "
+    "containers whose __iter__ makes one: every one of them ticks the clock of the case, also when it finds itself "
+    "exhausted; plain lists are only placed after an infinite iterable (never reached); CountFrom is observed through "
+    "the additions itertools.count performs on an instrumented start value (one per value handed out)",
+    "judgements of the adversary round: candidates 1 (Split.run materialises a Source branch), 2 (Chain.__call__ "
+    "materialises one-pass iterables) and 3 (Slice(start, -m) keeps the skipped values alive) all violate the "
+    "statement inside its quantifier (a Slice(n) after an infinite Source must terminate; only |index| values are kept "
+    "alive) - none was judged outside; RunningChunkBy, Reverse, End, StoreFilled (same files) are not among the "
+    "elements the quantifier lists and are not exercised",
 ]
 LEVEL_TEXT = ("Lean 4 theorems about pull-based generator models of the streaming elements, for all pipelines, all finite "
               "and infinite inputs and all consumer stop points (no bound): the consumer's trace and pull count equal a "
               "stamped-flow specification composed per stage (pipeline_lazy, pipeline_lazy_infinite), the pulled prefix "
               "determines the results (pipeline_prefix_determined) and for exact elements no shorter one does "
-              "(exact_pipeline_minimal); buffer sizes of negative Slice, Count and Split hold in every reachable state. "
+              "(exact_pipeline_minimal); buffer sizes of negative Slice, Count and Split hold in every reachable state; "
+              "the same for flows that come from a chain of iterables and for Sources inside a Split, finite or infinite "
+              "(sources_lazy, sources_lazy_infinite: one pull per value handed downstream, nothing in advance). "
               "Tied to /repo by an event-trace correspondence check and by an oracle on the real code (reference pull "
               "bounds, an extensional cut-input probe, stop points, re-use, weak-reference liveness).")
 LEVEL_NOTE = ("Trusted: Lean kernel (+ propext, Classical.choice, Quot.sound), the hand transcription validated by the "
